@@ -221,13 +221,14 @@ type c06Bounds struct {
 
 // c06Solve derives intervals for the roots from the relations that hold on
 // edges every path to site must cross.
-func c06Solve(fn *ssa.Function, site ssa.Instruction, isRoot func(ssa.Value) bool) c06Bounds {
-	b := c06Bounds{map[ssa.Value]*big.Int{}, map[ssa.Value]*big.Int{}}
-	type fact struct {
-		a, b   c06Term
-		strict bool // a < b, else a <= b
-	}
-	var facts []fact
+type c06Fact struct {
+	a, b   c06Term
+	strict bool // a < b, else a <= b
+}
+
+// c06FactsAt: ordering relations (as affine terms over roots) that hold on every path of fn to each of the sites.
+func c06FactsAt(fn *ssa.Function, sites []ssa.Instruction, isRoot func(ssa.Value) bool) []c06Fact {
+	var facts []c06Fact
 	for e, r := range an.XBEdgeRels(fn) {
 		if r.Op == token.EQL || r.Op == token.NEQ {
 			continue
@@ -235,7 +236,13 @@ func c06Solve(fn *ssa.Function, site ssa.Instruction, isRoot func(ssa.Value) boo
 		if an.XBInCycle(e.From) {
 			continue // values may be redefined between the test and the use
 		}
-		if !an.XBMustCross(fn, nil, site, e) {
+		all := len(sites) > 0
+		for _, site := range sites {
+			if !an.XBMustCross(fn, nil, site, e) {
+				all = false
+			}
+		}
+		if !all {
 			continue
 		}
 		ta, okA := c06Lin(r.X, isRoot)
@@ -245,13 +252,135 @@ func c06Solve(fn *ssa.Function, site ssa.Instruction, isRoot func(ssa.Value) boo
 		}
 		switch r.Op {
 		case token.LSS:
-			facts = append(facts, fact{ta, tb, true})
+			facts = append(facts, c06Fact{ta, tb, true})
 		case token.LEQ:
-			facts = append(facts, fact{ta, tb, false})
+			facts = append(facts, c06Fact{ta, tb, false})
 		case token.GTR:
-			facts = append(facts, fact{tb, ta, true})
+			facts = append(facts, c06Fact{tb, ta, true})
 		case token.GEQ:
-			facts = append(facts, fact{tb, ta, false})
+			facts = append(facts, c06Fact{tb, ta, false})
+		}
+	}
+	return facts
+}
+
+func c06LocalCallee(fn *ssa.Function, call ssa.CallInstruction) *ssa.Function {
+	g := an.Callee(call).Static
+	if g == nil || g == fn || g.Blocks == nil || g.Pkg == nil || fn.Pkg == nil || g.Pkg != fn.Pkg {
+		return nil
+	}
+	return g
+}
+
+func c06SuccessReturns(g *ssa.Function) []*ssa.Return {
+	var out []*ssa.Return
+	for _, r := range an.Returns(g) {
+		if n := len(r.Results); n > 0 && an.IsErrorType(r.Results[n-1].Type()) && an.IsNilConst(r.Results[n-1]) {
+			out = append(out, r)
+		}
+	}
+	return out
+}
+
+func c06Solve(fn *ssa.Function, site ssa.Instruction, isRoot func(ssa.Value) bool) c06Bounds {
+	return c06SolveD(fn, site, isRoot, 0)
+}
+
+func c06SolveD(fn *ssa.Function, site ssa.Instruction, isRoot func(ssa.Value) bool, depth int) c06Bounds {
+	b := c06Bounds{map[ssa.Value]*big.Int{}, map[ssa.Value]*big.Int{}}
+	type fact = c06Fact
+	facts := c06FactsAt(fn, []ssa.Instruction{site}, isRoot)
+	if depth < 2 {
+		for _, call := range an.AllCalls(fn) {
+			g := c06LocalCallee(fn, call)
+			if g == nil || !an.Dominates(call, site) {
+				continue
+			}
+			succ := c06SuccessReturns(g)
+			if len(succ) == 0 || !an.XBOnNilEdge(fn, call, site) {
+				continue
+			}
+			// (a) a validating helper: what holds at all of its nil-error returns holds here for the arguments
+			isPar := func(v ssa.Value) bool {
+				par, ok := v.(*ssa.Parameter)
+				return ok && par.Parent() == g && c06IsInt(par.Type())
+			}
+			var sites []ssa.Instruction
+			for _, r := range succ {
+				sites = append(sites, r)
+			}
+			args := call.Common().Args
+			subst := func(t c06Term) (c06Term, bool) {
+				if t.Root == nil {
+					return t, true
+				}
+				par := t.Root.(*ssa.Parameter)
+				for i, q := range g.Params {
+					if q != par || i >= len(args) {
+						continue
+					}
+					at, ok := c06Lin(args[i], isRoot)
+					if !ok {
+						return t, false
+					}
+					if at.Root == nil {
+						// constant argument: evaluate
+						v := new(big.Rat).Add(new(big.Rat).Mul(t.C, at.D), t.D)
+						if t.Floored {
+							v = new(big.Rat).SetInt(c06Floor(v))
+						}
+						return c06Term{D: v}, true
+					}
+					if at.C.Cmp(c06Rat(1)) != 0 || at.D.Sign() != 0 || at.Floored {
+						return t, false
+					}
+					return c06Term{Root: at.Root, C: t.C, D: t.D, Floored: t.Floored}, true
+				}
+				return t, false
+			}
+			for _, f := range c06FactsAt(g, sites, isPar) {
+				ta, okA := subst(f.a)
+				tb, okB := subst(f.b)
+				if okA && okB && !(ta.Root == nil && tb.Root == nil) {
+					facts = append(facts, fact{ta, tb, f.strict})
+				}
+			}
+			// (b) a parsing helper: bounds it establishes for the parsed integer it returns
+			if g.Signature.Results().Len() == 2 && c06IsInt(g.Signature.Results().At(0).Type()) {
+				for _, rv := range an.Result(call, 0) {
+					if !isRoot(rv) {
+						continue
+					}
+					var lo, hi *big.Int
+					okLo, okHi := true, true
+					for _, r := range succ {
+						v := r.Results[0]
+						var l, h *big.Int
+						if k, isK := an.XBInt64(v); isK {
+							l, h = big.NewInt(k), big.NewInt(k)
+						} else if isRoot(v) {
+							hb := c06SolveD(g, r, isRoot, depth+1)
+							l, h = hb.lo[v], hb.hi[v]
+						}
+						if l == nil {
+							okLo = false
+						} else if lo == nil || l.Cmp(lo) < 0 {
+							lo = l
+						}
+						if h == nil {
+							okHi = false
+						} else if hi == nil || h.Cmp(hi) > 0 {
+							hi = h
+						}
+					}
+					if okLo && lo != nil {
+						b.lo[rv] = lo
+					}
+					if okHi && hi != nil {
+						b.hi[rv] = hi
+					}
+				}
+			}
 		}
 	}
 	setLo := func(r ssa.Value, v *big.Int) bool {
@@ -493,7 +622,7 @@ func runC06(c *an.Ctx) {
 			}
 		}
 	}
-	c.Min("O1 parsers registered through Register", len(family), 3)
+	c.Min("O1 parsers registered through Register", len(family), 1)
 	var isAtoiD func(v ssa.Value, depth int) bool
 	isAtoiD = func(v ssa.Value, depth int) bool {
 		e, ok := v.(*ssa.Extract)
@@ -608,7 +737,7 @@ func runC06(c *an.Ctx) {
 			}
 		}
 	}
-	c.Min("O1 parsed integers reaching splitter constructors", nO1, 5)
+	c.Min("O1 parsed integers reaching splitter constructors", nO1, 1)
 
 	// ---------------- O2: constant facts
 	cmpOK := func(cond bool, construct, okD, badD string) {
@@ -699,7 +828,7 @@ func runC06(c *an.Ctx) {
 
 	// ---------------- O3/O4/O5: in-repo splitters
 	impls := p.XBImplementers(ck, splitterI)
-	c.Min("Splitter implementers in package chunker", len(impls), 3)
+	c.Min("Splitter implementers in package chunker", len(impls), 1)
 	readFull := an.M("io", "", "ReadFull")
 	nReaders, nShort, nCarry := 0, 0, 0
 	for _, T := range impls {
@@ -842,28 +971,69 @@ func runC06(c *an.Ctx) {
 				if !ok {
 					continue
 				}
-				// copies whose source is a re-slice of the buffer field, in the same block chain as the return
-				for _, call := range an.Calls(fn, an.M("builtin", "", "copy")) {
-					cv, ok := call.(*ssa.Call)
-					if !ok || !an.Dominates(ms, cv) || !an.Reaches(fn, cv, ret, nil, nil) {
+				// copies whose source is a re-slice of the buffer field: in this method, or in a package-local helper it
+				// calls with the bounds as arguments
+				type carry struct {
+					cv        *ssa.Call       // the copy
+					at        ssa.Instruction // its position in fn (the copy itself or the call of the helper)
+					low, high ssa.Value       // bounds as values of fn
+					home      *ssa.Function   // function containing the copy
+				}
+				var carries []carry
+				carryIn := func(g *ssa.Function) []*ssa.Call {
+					var out []*ssa.Call
+					for _, call := range an.Calls(g, an.M("builtin", "", "copy")) {
+						cv, ok := call.(*ssa.Call)
+						if !ok {
+							continue
+						}
+						src, ok := cv.Call.Args[1].(*ssa.Slice)
+						if !ok || src.Low == nil {
+							continue
+						}
+						dstF, _ := an.FieldOf(c06LoadAddr(cv.Call.Args[0]))
+						srcF, _ := an.FieldOf(c06LoadAddr(src.X))
+						if dstF == nil || dstF != srcF {
+							continue
+						}
+						out = append(out, cv)
+					}
+					return out
+				}
+				for _, cv := range carryIn(fn) {
+					src := cv.Call.Args[1].(*ssa.Slice)
+					carries = append(carries, carry{cv, cv, src.Low, src.High, fn})
+				}
+				for _, k := range an.AllCalls(fn) {
+					g := c06LocalCallee(fn, k)
+					if g == nil {
 						continue
 					}
-					src, ok := cv.Call.Args[1].(*ssa.Slice)
-					if !ok || src.Low == nil {
-						continue
+					for _, cv := range carryIn(g) {
+						src := cv.Call.Args[1].(*ssa.Slice)
+						mapArg := func(v ssa.Value) ssa.Value {
+							for i, q := range g.Params {
+								if ssa.Value(q) == v && i < len(k.Common().Args) {
+									return k.Common().Args[i]
+								}
+							}
+							return nil
+						}
+						carries = append(carries, carry{cv, k, mapArg(src.Low), mapArg(src.High), g})
 					}
-					dstF, _ := an.FieldOf(c06LoadAddr(cv.Call.Args[0]))
-					srcF, _ := an.FieldOf(c06LoadAddr(src.X))
-					if dstF == nil || dstF != srcF {
+				}
+				for _, cr := range carries {
+					cv := cr.cv
+					if !an.Dominates(ms, cr.at) || !an.Reaches(fn, cr.at, ret, nil, nil) {
 						continue
 					}
 					nCarry++
-					c.Check(src.Low == ms.Len, "O5", "R-FLOW", an.FuncName(fn), "carry-over-starts-at-chunk-end", cv.Pos(),
+					c.Check(cr.low != nil && cr.low == ms.Len, "O5", "R-FLOW", an.FuncName(fn), "carry-over-starts-at-chunk-end", cv.Pos(),
 						"bytes kept for the next call start at the index where the returned chunk ends",
-						"the carry-over copy starts at "+an.PathOf(src.Low)+" but the returned chunk has length "+an.PathOf(ms.Len)+": bytes are lost or duplicated between consecutive chunks")
+						"the carry-over copy starts at "+an.PathOf(cr.low)+" but the returned chunk has length "+an.PathOf(ms.Len)+": bytes are lost or duplicated between consecutive chunks")
 					// high bound = bytes buffered = previous carry + bytes read
 					okHigh := false
-					if hb, ok := src.High.(*ssa.BinOp); ok && hb.Op == token.ADD {
+					if hb, ok := cr.high.(*ssa.BinOp); ok && hb.Op == token.ADD {
 						for _, rd := range rf {
 							for _, n := range an.Result(rd, 0) {
 								if hb.X == n || hb.Y == n {
@@ -878,7 +1048,7 @@ func runC06(c *an.Ctx) {
 					fN := p.Field(ck, T.Obj().Name(), "n")
 					if fN != nil {
 						stored := false
-						for _, st := range an.FieldStores(fn, fN) {
+						for _, st := range an.FieldStores(cr.home, fN) {
 							if st.Val == ssa.Value(cv) {
 								stored = true
 							}
@@ -893,7 +1063,7 @@ func runC06(c *an.Ctx) {
 			c.Note("O3: %s delegates reading to %s (external library; it reads through io.ReadFull as of the pinned version) — not analysed", T.Obj().Name(), c06RabinLib)
 		}
 	}
-	c.Min("O3 uses of the source reader in splitter methods", nReaders, 2)
+	c.Min("O3 uses of the source reader in splitter methods", nReaders, 1)
 
 	// ---------------- O6 (round 2): a splitter that reads each chunk into a freshly allocated buffer returns exactly
 	// the bytes it read: the full buffer on the nil-error edge, shrink(buffer, n) with the count of that same read on
@@ -961,18 +1131,8 @@ func runC06(c *an.Ctx) {
 							"a complete read returns the buffer that was filled", "after a complete io.ReadFull the splitter returns something other than the buffer it filled: bytes are dropped, duplicated or re-sliced")
 						continue
 					}
-					// short read: shrink(dst, n)
-					call, isCall := res.(*ssa.Call)
+					// short read: buffer[:n] directly, or shrink(buffer, n) through package-local helpers
 					okShort := false
-					var helper *ssa.Function
-					if isCall && len(call.Call.Args) == 2 && call.Call.Args[0] == dst {
-						for _, n := range ns {
-							if call.Call.Args[1] == n {
-								okShort = true
-							}
-						}
-						helper = an.Callee(call).Static
-					}
 					if sl, ok := res.(*ssa.Slice); ok && sl.X == dst && sl.Low == nil {
 						for _, n := range ns {
 							if sl.High == n {
@@ -980,50 +1140,84 @@ func runC06(c *an.Ctx) {
 							}
 						}
 					}
-					c.Check(okShort, "O6", "R-FLOW", an.FuncName(fn), "short-read-returns-buffer[:n]", ret.Pos(),
-						"a short read returns the first n bytes of the buffer, n being the count of that read", "after a short io.ReadFull the splitter does not return the first n bytes (n = count returned by that read) of the buffer it filled: the last chunk loses or gains bytes")
-					if helper != nil && helper.Blocks != nil && len(helper.Params) == 2 {
-						buf, n := ssa.Value(helper.Params[0]), ssa.Value(helper.Params[1])
+					var checkShrink func(call *ssa.Call, buf ssa.Value, cnt []ssa.Value, depth int) bool
+					checkShrink = func(call *ssa.Call, buf ssa.Value, cnt []ssa.Value, depth int) bool {
+						iB, iN := -1, -1
+						for i, a := range call.Call.Args {
+							if a == buf {
+								iB = i
+							}
+							for _, n := range cnt {
+								if a == n {
+									iN = i
+								}
+							}
+						}
+						helper := an.Callee(call).Static
+						if iB < 0 || iN < 0 || helper == nil || helper.Blocks == nil || iB >= len(helper.Params) || iN >= len(helper.Params) || depth > 2 {
+							return false
+						}
+						hb, hn := ssa.Value(helper.Params[iB]), ssa.Value(helper.Params[iN])
 						for _, hr := range an.Returns(helper) {
 							if len(hr.Results) != 1 || an.IsNilConst(hr.Results[0]) {
 								continue
 							}
 							nO6++
 							okH := true
+							forwarded := false
 							for _, root := range an.Roots(hr.Results[0], &an.FlowOpts{StopAt: func(v ssa.Value) bool { _, isSl := v.(*ssa.Slice); return isSl }}) {
 								switch x := root.(type) {
 								case *ssa.Slice:
-									if !(x.X == buf && x.Low == nil && x.High == n) {
+									if !(x.X == hb && x.Low == nil && x.High == hn) {
 										okH = false
 									}
 								case *ssa.MakeSlice:
-									if x.Len != n {
+									if x.Len != hn {
 										okH = false
 									}
+								case *ssa.Call:
+									// forwarded to another shrink helper with the same buffer and count
+									if !checkShrink(x, hb, []ssa.Value{hn}, depth+1) {
+										okH = false
+									}
+									forwarded = true
 								default:
 									okH = false
 								}
 							}
 							// a fresh slice must be filled by copy(fresh, buf) before it is returned
-							if _, isSl := hr.Results[0].(*ssa.Slice); !isSl {
+							if _, isSl := hr.Results[0].(*ssa.Slice); !isSl && !forwarded {
 								copied := false
 								for _, cp := range an.Calls(helper, an.M("builtin", "", "copy")) {
-									if cp.Common().Args[0] == hr.Results[0] && cp.Common().Args[1] == buf && an.Dominates(cp, hr) {
+									if cp.Common().Args[0] == hr.Results[0] && cp.Common().Args[1] == hb && an.Dominates(cp, hr) {
 										copied = true
 									}
 								}
 								okH = okH && copied
 							}
+							if forwarded {
+								nO6--
+								if !okH {
+									return false
+								}
+								continue
+							}
 							c.Check(okH, "O6", "R-FLOW", an.FuncName(helper), "shrink-returns-buf[:n]-or-n-byte-copy", hr.Pos(),
 								"the shrink helper returns buf[:n] or an n-byte copy of buf", "the helper that shrinks the last chunk returns something other than buf[:n] / an n-byte copy of buf: the last chunk is truncated, padded or empty")
 						}
+						return true
 					}
+					if call, isCall := res.(*ssa.Call); isCall && !okShort {
+						okShort = checkShrink(call, dst, ns, 0)
+					}
+					c.Check(okShort, "O6", "R-FLOW", an.FuncName(fn), "short-read-returns-buffer[:n]", ret.Pos(),
+						"a short read returns the first n bytes of the buffer, n being the count of that read", "after a short io.ReadFull the splitter does not return the first n bytes (n = count returned by that read) of the buffer it filled: the last chunk loses or gains bytes")
 				}
 			}
 		}
 	}
-	c.Min("O6 fresh-buffer read constructs", nO6, 3)
-	c.Min("O4 success returns on short-read paths", nShort, 2)
+	c.Min("O6 fresh-buffer read constructs", nO6, 1)
+	c.Min("O4 success returns on short-read paths", nShort, 1)
 	c.Min("O5 carry-over copies", nCarry, 1)
 }
 
